@@ -37,7 +37,7 @@ class Harness:
 
 
 # ---------------------------------------------------------------------------- native replay
-def native_test(world, crate, host_rel, test_src, test_name, release=True, timeout=900, profiles=None, lib=True):
+def native_test(world, crate, host_rel, test_src, test_name, release=True, timeout=300, profiles=None, lib=True):
     """append `#[cfg(test)] #[path] mod verif_replay;` to host_rel inside a scratch copy of the
     snapshot and run the named test in dev (and release).  Returns dict profile -> (passed, output)."""
     ws = os.path.join(prep.CACHE, 'replay-ws-%d' % os.getpid())
@@ -62,14 +62,29 @@ def native_test(world, crate, host_rel, test_src, test_name, release=True, timeo
                             if fn.endswith(('.rs', '.toml')): os.utime(os.path.join(root, fn), (now, now))
                     if os.path.exists(stamp): os.remove(stamp)
                 cmd = ['cargo', 'test', '--offline', '-p', crate] + (['--lib'] if lib else ['--bins']) + (['--release'] if prof == 'release' else []) + ['verif_replay::' + test_name, '--', '--nocapture', '--test-threads', '1']
-                p = subprocess.run(cmd, cwd=ws, env=env, stdout=subprocess.PIPE, stderr=subprocess.STDOUT, timeout=timeout)
-                txt = p.stdout.decode(errors='replace')
+                # own process group, so that a replay that hangs (a reproduced non-termination) can be killed with its children
+                pr = subprocess.Popen(cmd, cwd=ws, env=env, stdout=subprocess.PIPE, stderr=subprocess.STDOUT, start_new_session=True)
+                try:
+                    outb, _ = pr.communicate(timeout=timeout)
+                    txt = outb.decode(errors='replace')
+                except subprocess.TimeoutExpired:
+                    import signal as _sig
+                    try: os.killpg(pr.pid, _sig.SIGKILL)
+                    except Exception: pass
+                    outb, _ = pr.communicate()
+                    t_ = outb.decode(errors='replace')
+                    if 'running 1 test' in t_: out[prof] = (False, 'VERIF-VIOLATED the native run did not finish within %d s (killed): ' % timeout + t_[-1200:])
+                    else: out[prof] = (None, 'the native build did not finish within %d s: ' % timeout + t_[-1200:])
+                    open(stamp, 'w').write(world.tree_hash) if os.path.isdir(os.path.dirname(stamp)) else None
+                    continue
                 os.makedirs(os.path.dirname(stamp), exist_ok=True); open(stamp, 'w').write(world.tree_hash)
                 ran = re.search(r'test result: (ok|FAILED)\. (\d+) passed; (\d+) failed', txt)
                 if 'VERIF-VIOLATED' in txt and 'VERIF-VIOLATED' not in txt[-3000:]:
                     i = txt.index('VERIF-VIOLATED'); txt = txt[:i + 300] + ' ... ' + txt[-2500:]
                 if re.search(r'has overflowed its stack|SIGSEGV|SIGABRT|stack overflow', txt):
                     out[prof] = (False, 'VERIF-VIOLATED process crashed: ' + txt[-1500:])
+                elif not ran and 'VERIF-VIOLATED' in txt and 'running 1 test' in txt:
+                    out[prof] = (False, txt[-3000:])          # the test ended the process itself after reporting (e.g. a watchdog exit)
                 elif not ran or (int(ran.group(2)) + int(ran.group(3))) != 1:
                     out[prof] = (None, txt[-3000:])
                 else:
